@@ -90,6 +90,17 @@ impl ResourceRequestVariants {
             .min()
             .unwrap_or_default()
     }
+
+    /// Checks a request that comes from a client.
+    /// The scheduler relies on these properties, a request that violates them makes it panic.
+    pub fn validate(&self) -> crate::Result<()> {
+        if self.variants.is_empty() {
+            return Err(DsError::GenericError(
+                "Resource request has no variant".to_string(),
+            ));
+        }
+        Ok(())
+    }
 }
 
 #[derive(Deserialize, Serialize, Debug, Eq, PartialEq, Hash, Clone, Copy)]
